@@ -22,7 +22,7 @@ TIER="${TIER:-quick}"
 [ $# -eq 0 ] && set -- tools/mutants/*.patch
 rc=0
 for P in "$@"; do
-    name=$(basename "$P" .patch); case "$P" in */patch.diff) name=$(basename "$(dirname "$(dirname "$P")")")-$(basename "$(dirname "$P")");; esac
+    name=$(basename "$P" .patch); case "$P" in seeded/*/patch.diff|*/seeded/*/patch.diff) name=$(basename "$(dirname "$P")");; */patch.diff) name=$(basename "$(dirname "$(dirname "$P")")")-$(basename "$(dirname "$P")");; esac
     expect=$(sed -n 's/^# expect: *//p' "$P" | head -1)
     git -C "$WT" checkout -q -- . && git -C "$WT" clean -fdq -e target
     if ! git -C "$WT" apply "$VERIF/$P" 2>/dev/null && ! git -C "$WT" apply "$P" 2>/dev/null; then echo "$name: PATCH DOES NOT APPLY"; rc=2; continue; fi
